@@ -170,6 +170,10 @@ class SimStore(object):
       if c not in t["cols"]:
         raise StoreError("BulkAddRecord: unknown column %s.%s" % (tid, c))
     for i, r in enumerate(rids):
+      if r is None:
+        # `id INTEGER PRIMARY KEY`: SQLite assigns max(id)+1 to a NULL id (old migrations rely
+        # on this when they add records)
+        r = max(list(t["rows"]) + [0]) + 1
       if not isinstance(r, int) or isinstance(r, bool) or r <= 0:
         raise StoreError("BulkAddRecord: bad row id %r in %s" % (r, tid))
       if r in t["rows"]:
